@@ -1688,10 +1688,24 @@ def rule_broker(prog):
                 key = n["args"][0]
                 bad = [x["m"] for x in hir.nodes(key, "MethodCall") if x["m"] in lossy and hir.adt_path(c, x["recv"]["t"]) == "url::Url"]
                 # key computed by a local helper: look into its body
+                roots_ = [key]
                 for call in hir.nodes(key, "Call"):
                     hb = prog.body(hir.callee(call) or "")
                     if hb is not None:
                         bad += [x["m"] for x in hir.nodes(hb["body"], "MethodCall") if x["m"] in lossy and hir.adt_path(c, x["recv"]["t"]) == "url::Url"]
+                        roots_.append(hb["body"])
+                # ... and nothing else that maps several URIs to one key: a conversion to a file path (drops scheme, query, fragment), a case
+                # mapping, trimming or cutting of the URI's text
+                for r_ in roots_:
+                    for x in hir.nodes(r_, "MethodCall"):
+                        rt_ = c.tstr(hir.strip(x["recv"])["t"]) + "".join(c.tstr(a_["to"]) for a_ in hir.strip(x["recv"]).get("adj") or [])
+                        is_url_ = "Url" in rt_ or hir.adt_path(c, hir.strip(x["recv"])["t"]) == "url::Url"
+                        if (is_url_ and x["m"] in ("to_file_path", "join", "make_relative", "origin", "socket_addrs")) or \
+                                (("str" in rt_ or "String" in rt_) and x["m"] in ("to_lowercase", "to_uppercase", "to_ascii_lowercase", "to_ascii_uppercase",
+                                                                                "trim", "trim_start", "trim_end", "trim_matches", "trim_start_matches",
+                                                                                "trim_end_matches", "strip_prefix", "strip_suffix", "split", "rsplit",
+                                                                                "split_once", "rsplit_once", "replace", "replacen", "truncate")):
+                            bad.append(x["m"])
                 nkeys += 1
                 out.add("document::broker", "%s: docs.%s key is an injective function of the URI" % (name, n["m"]), not bad,
                         c.loc(n["sp"]), "the key is derived with the lossy accessor Url::%s(): URIs that differ only in "
